@@ -3,6 +3,7 @@ import CookModel.Lemmas.ExtLawsStep
 import CookModel.Lemmas.ExtLawsAnalysis
 import CookModel.Lemmas.ExtLawsTimer
 import CookModel.Lemmas.ExtLawsAnalysisFull
+import CookModel.Lemmas.ExtLawsEvents
 import CookModel.Lemmas.LexLaws
 /-
   C02  Core-syntax recipes parse identically under every extension subset.
@@ -245,6 +246,59 @@ theorem C02_parse_ext_irrelevant_events (env : Env) (e : Ext) (input : Str)
     (hev : (pullEvents (α := α) env.cs env.ext input).1.toList.all (evCoreX α env) = true) :
     parseRecipe (α := α) (env.withExt e) input = parseRecipe env input :=
   parseRecipe_extX env e input hu hev
+
+/-! #### What the parser produces for `UsesNone` blocks, and the full clause for `parse` -/
+
+/-- the events of an input all of whose blocks are `UsesNone` carry nothing for the MODES gate of
+    `metadata` and the ADVANCED_UNITS gate of `ingredient` to act on: no `>>` key is `[…]` (as the
+    analysis tests it), every ingredient has the empty modifier set and no intermediate reference
+    (so it is no `&` reference).  `KeyTestsAgree` says that the parser's `[…]` test (outer-trimmed
+    key) and the analysis' (spaces collapsed) agree; see `C02_key_tests_agree`. -/
+theorem C02_usesNone_events (cs : CharSpec) (hkey : KeyTestsAgree cs) (e : Ext) (input : List Char)
+    (h : UsesNoneInput cs input = true) :
+    ∀ ev ∈ (pullEvents (α := α) cs e input).1.toList,
+      (∀ k v, ev = .metadata k v → bracketedKey cs k = false) ∧
+      (∀ i, ev = .ingredient i → i.val.modifiers.val = Modifiers.empty ∧ i.val.inter = none) := by
+  intro ev hev
+  have := pullEvents_QSyn cs hkey e input h ev hev
+  refine ⟨?_, ?_⟩
+  · rintro k v rfl; exact this
+  · rintro i rfl; exact this
+
+/-- the two tests for a `[…]` key agree for every character table that classifies the ASCII
+    space as whitespace -/
+theorem C02_key_tests_agree (cs : CharSpec) (h : cs.uws ' ' = true) : KeyTestsAgree cs :=
+  keyTestsAgree_of_space cs h
+
+/-- C02, the main clause for `CooklangParser::parse`, model level, all inputs: when every block of
+    the input is `UsesNone` (token predicate) and its texts and timers satisfy the two premises
+    that depend on the converter (`evConvCore`: no inline quantity is found in a step text and no
+    text is empty; a timer's value is numeric and its unit a time unit), the FULL result of
+    `parse` — recipe tables, metadata, diagnostics, panic flag — is the same under every
+    extension set (all raw bit patterns).  Nothing is assumed about any extension bit. -/
+theorem C02_parse_ext_irrelevant (env : Env) (hws : env.cs.uws ' ' = true) (e : Ext) (input : Str)
+    (hu : UsesNoneInput env.cs input = true)
+    (hconv : (pullEvents (α := α) env.cs env.ext input).1.toList.all (evConvCore α env) = true) :
+    parseRecipe (α := α) (env.withExt e) input = parseRecipe env input :=
+  parseRecipe_ext_irrelevant env (keyTestsAgree_of_space env.cs hws) e input hu hconv
+
+/-- … in the symmetric form: any two extension sets -/
+theorem C02_parse_ext_irrelevant_two (env : Env) (hws : env.cs.uws ' ' = true) (e₁ e₂ : Ext) (input : Str)
+    (hu : UsesNoneInput env.cs input = true)
+    (hconv : (pullEvents (α := α) env.cs env.ext input).1.toList.all (evConvCore α env) = true) :
+    parseRecipe (α := α) (env.withExt e₁) input = parseRecipe (env.withExt e₂) input :=
+  (C02_parse_ext_irrelevant env hws e₁ input hu hconv).trans
+    (C02_parse_ext_irrelevant env hws e₂ input hu hconv).symm
+
+/-- `Mix @salt{} for ~{5%min}.` -/
+def C02.coreInput : List Char :=
+  ['M','i','x',' ','@','s','a','l','t','{','}',' ','f','o','r',' ','~','{','5','%','m','i','n','}','.']
+
+/-- the premises are satisfiable: that input with the converter that knows `min` -/
+example : C02.env.cs.uws ' ' = true ∧
+    UsesNoneInput C02.env.cs C02.coreInput = true ∧
+    (pullEvents (α := Rat) C02.env.cs C02.env.ext C02.coreInput).1.toList.all (evConvCore Rat C02.env) = true := by
+  decide +kernel
 
 /-! ### The converse clause, remaining gates: a disabled extension's syntax is core text -/
 
